@@ -386,4 +386,88 @@ def Sys.advance (s : Sys) (dt : Nat) : Sys := { s with now := s.now + dt }
 def Sys.pollAll (s : Sys) : Sys :=
   { s with svcs := s.svcs.map (fun svc => svc.pollKeepAlive s.now) }
 
+/-! ### the whole system as a transition system (C09 `idle_closed_at`)
+
+Every step is one of the real operations; who does it is in the constructor's comment. The
+environment hypothesis (fairness of the executor under a logical clock) is the guard of `advance`:
+**the clock does not move while some protocol's tracker holds a sleep future that was pushed but not
+polled yet, nor past the deadline of a started one** — i.e. a protocol task is polled when it has a
+new timer (it is: `substream_activity` is only called from inside `poll_next`, which then either goes
+on to poll the tracker or returns an event to the protocol's loop that polls again, or from
+`open_substream`, after which the protocol's loop polls its service again) and when a timer wakes it.
+Messages may stay in the channels for any length of time. -/
+
+/-- First message for protocol `i` in the inbox: `(before, message, after)`. -/
+def splitFirst (i : Nat) : List (Nat × Msg) → Option (List (Nat × Msg) × Msg × List (Nat × Msg))
+  | [] => none
+  | x :: r =>
+    if x.1 = i then some ([], x.2, r)
+    else match splitFirst i r with
+      | some (pre, m, post) => some (x :: pre, m, post)
+      | none => none
+
+inductive Label where
+  /-- a connection task announces the new connection `c` (`report_connection_established`) -/
+  | established (c : Nat)
+  /-- the task of `c` ends for whatever reason (`report_connection_closed`) -/
+  | closed (c : Nat)
+  /-- protocol `i` calls `open_substream(p)` -/
+  | open (i p : Nat)
+  /-- the task of `c` takes a command out of its channel -/
+  | recv (c : Nat)
+  /-- the task of `c` finishes an outbound negotiation: success / failure -/
+  | subOpen (c sid : Nat)
+  | subFail (c sid : Nat)
+  /-- the task of `c` reports an inbound substream for protocol `i` -/
+  | subInbound (c i : Nat)
+  /-- protocol `i` drops its `k`-th substream -/
+  | dropSub (i k : Nat)
+  /-- protocol `i`'s `poll_next` takes the next message of its channel -/
+  | deliver (i : Nat)
+  /-- protocol `i`'s `poll_next` polls its keep-alive tracker -/
+  | poll (i : Nat)
+  /-- the logical clock advances -/
+  | advance (dt : Nat)
+  deriving Repr, DecidableEq
+
+/-- The environment hypothesis: every sleep future of every protocol has been polled (is started) and
+none of them completes before `now + dt`. -/
+def timersSettled (s : Sys) (dt : Nat) : Bool :=
+  s.svcs.all fun svc => svc.tr.timers.all fun t =>
+    match t.deadline with
+    | some d => decide (s.now + dt ≤ d)
+    | none => false
+
+/-- One step. `peer c` is the remote peer of connection `c` (fixed for a connection's life); `n` is a
+ghost counter: connection ids are never reused. `none` = the step is not enabled. -/
+def Sys.step (peer : Nat → Nat) (n : Nat) (s : Sys) : Label → Option (Nat × Sys)
+  | .established c => if n ≤ c then some (c + 1, s.established (peer c) c) else none
+  | .closed c => if s.tasks.any (fun t => t.1 == c) then some (n, s.closed (peer c) c) else none
+  | .open i p => some (n, (s.open i p).1)
+  | .recv c => some (n, (s.recv c).1)
+  | .subOpen c sid => (s.subOpen c sid).map fun s' => (n, s')
+  | .subFail c sid => (s.subFail c sid).map fun s' => (n, s')
+  | .subInbound c i => some (n, (s.subInbound c i).1)
+  | .dropSub i k => (s.dropSub i k).map fun s' => (n, s')
+  | .deliver i =>
+    match splitFirst i s.inbox with
+    | some (pre, m, post) => some (n, (Sys.deliver { s with inbox := pre ++ post } i m).1)
+    | none => none
+  | .poll i =>
+    match s.svcs[i]? with
+    | some svc => some (n, { s with svcs := setSvc s.svcs i (svc.pollKeepAlive s.now) })
+    | none => none
+  | .advance dt => if timersSettled s dt then some (n, s.advance dt) else none
+
+/-- Run a list of steps (stops with `none` at the first one that is not enabled). -/
+def Sys.steps (peer : Nat → Nat) : Nat → Sys → List Label → Option (Nat × Sys)
+  | n, s, [] => some (n, s)
+  | n, s, l :: ls =>
+    match s.step peer n l with
+    | some (n', s') => Sys.steps peer n' s' ls
+    | none => none
+
+/-- A system before any connection: protocols `(keep-alive?, timeout)`. -/
+def Sys.init (cfg : List (Bool × Nat)) : Sys := { svcs := cfg.map fun x => { ka := x.1, T := x.2 } }
+
 end Litep2pVerif.Service.KA
